@@ -26,9 +26,16 @@ class DropAddon:
     def __init__(self):
         self.drop_next = False
         self.seen = None
+        self.copy = None
 
     def handle_lludp_message(self, session, region, message):
         self.seen = message
+        if self.drop_next == "take":
+            # own the message and send the copy on at once; the proxy tail drops the queued original
+            self.drop_next = False
+            self.copy = message.take()
+            region.circuit.send(self.copy)
+            return None
         if self.drop_next:
             self.drop_next = False
             region.circuit.drop_message(message)
@@ -61,10 +68,17 @@ class Impl:
                 m = pe.ping(d, act["k"], reliable=act["rel"], acks=act["a1"], resent=act["resend"])
             else:
                 m = pe.packet_ack(d, act["k"], act["a2"], acks=act["a1"], resent=act["resend"])
-            self.addon.drop_next = act["disp"] == "drop"
+            self.addon.drop_next = {"drop": True, "take": "take"}.get(act["disp"], False)
             self.addon.seen = None
+            self.addon.copy = None
             exc = env.deliver(m)
             self.addon.drop_next = False
+            cp = self.addon.copy
+            if cp is not None and act["rel"]:
+                # the proxy now owns a reliable packet: its completion signal is the resend table's future
+                info = env.circuit.unacked_reliable.get((d, cp.packet_id))
+                if info is not None:
+                    self.futs[(act["d"], cp.packet_id)] = info.completed
             seen = self.addon.seen
             if seen is not None:
                 flags = {"finalized": bool(seen.finalized), "dropped": bool(seen.dropped)}
@@ -140,7 +154,7 @@ def _diff(act, obs, got):
     if ed != got["done"]:
         bad.append(("completed futures", ed, got["done"]))
     if act["n"] == "Send" and got["flags"] is not None:
-        want = {"finalized": True, "dropped": act["disp"] == "drop"}
+        want = {"finalized": True, "dropped": act["disp"] in ("drop", "take")}
         if got["flags"] != want:
             bad.append(("message flags", want, got["flags"]))
     return bad
@@ -261,7 +275,7 @@ def _b1(chk: Check, consts, label):
     chk.cov["traces_validated_against_impl"] += len(ids)
     for e in g.edges:
         a = e["act"]
-        if a["n"] != "Send" or a["a1"] or a["a2"] or a["disp"] == "drop":
+        if a["n"] != "Send" or a["a1"] or a["a2"] or a["disp"] != "fwd":
             chk.nontrivial((label, e["_s"], common.skey(a)))
     _report(chk, label, results)
     pick = [e for e in g.edges if e["act"]["n"] == "Send" and e["act"]["a1"] and e["obs"]["out"]]
